@@ -218,7 +218,12 @@ impl<Error: Send + 'static> DecodeScheduler<Error> {
 
 	fn seek_to_index(&mut self, index: usize) -> Result<(), Error> {
 		self.transport.seek_to(index, self.num_frames);
-		self.decoder_current_frame_index = self.decoder.seek(index)?;
+		// the transport may have wrapped the position into the loop region,
+		// or the position may lie past the end of the sound, in which
+		// case there's nothing left to decode
+		if self.transport.playing {
+			self.decoder_current_frame_index = self.decoder.seek(self.transport.position)?;
+		}
 		Ok(())
 	}
 }
